@@ -161,6 +161,9 @@ fn json_sweep_over(tokens: &[&str], len: usize, wrap: u8, sh: &util::Shard) -> R
         let text = match wrap {
             1 => format!("[{text}]"),
             2 => format!("{{\"k\": {text}, \"l\": [0, {text}]}}"),
+            3 => format!("\"{text}\""),
+            4 => format!("{{\"a{text}\": 1}}"),
+            5 => format!("[\"x{text}y\", \"{text}\"]"),
             _ => text,
         };
         let model = refjson::parse(&text);
@@ -198,7 +201,11 @@ fn json_sweep_over(tokens: &[&str], len: usize, wrap: u8, sh: &util::Shard) -> R
                     }
                 }
                 // parseYaml on JSON documents without tabs / surrogate escapes
-                if !text.contains('\t') && !text.contains("\\ud8") && !text.contains("\\ude") {
+                let has_surrogate_escape = text.to_ascii_lowercase().match_indices("\\u").any(|(i, _)| {
+                    let b = text.as_bytes();
+                    b.get(i + 2).is_some_and(|c| c.eq_ignore_ascii_case(&b'd')) && b.get(i + 3).is_some_and(|c| matches!(c.to_ascii_lowercase(), b'8' | b'9' | b'a'..=b'f'))
+                });
+                if !text.contains('\t') && !has_surrogate_escape {
                     let y = eval(&mut p, &format!("std.parseYaml({})", escape_str(&text)));
                     rep.evaluations += 1;
                     match &y {
@@ -666,6 +673,24 @@ pub fn run(ctx: &Ctx) -> i32 {
             }
         }
         total.extra.insert("number_grammar_texts".into(), json!(n));
+    }
+    // \u escapes: every pair / lone unit over the borders of the surrogate ranges and their
+    // neighbours, as string value, key and array element
+    {
+        let units: Vec<String> = ["d7ff", "d800", "d801", "dafe", "db7f", "db80", "dbfe", "dbff", "dc00", "dc01", "dffe", "dfff", "e000", "0041", "fffe", "ffff", "DBFF", "DC00"].iter().map(|u| format!("\\u{u}")).collect();
+        let toks: Vec<&str> = units.iter().map(|s| s.as_str()).collect();
+        let mut n = 0u64;
+        for len in 1..=3 {
+            for wrap in 3..6u8 {
+                if len == 3 && wrap != 3 {
+                    continue;
+                }
+                let r = util::par_forked(&cfg, 16, |sh| json_sweep_over(&toks, len, wrap, sh));
+                n += r.states;
+                total.merge(r);
+            }
+        }
+        total.extra.insert("unicode_escape_texts".into(), json!(n));
     }
     for len in 1..=jl {
         let r = util::par_forked(&cfg, if len >= 4 { 512 } else { 64 }, |sh| json_sweep(len, sh));
